@@ -1,16 +1,15 @@
 package larking
 
 import (
-	"io"
 	"net/http"
 	"net/url"
 
 	"google.golang.org/genproto/googleapis/api/annotations"
-	"google.golang.org/grpc"
 )
 
 func init() {
 	vfHarnesses["VerifH_serveHTTP_params"] = VerifH_serveHTTP_params
+	vfHarnesses["VerifH_serveHTTP_typed"] = VerifH_serveHTTP_typed
 	vfHarnesses["VerifH_serveHTTP_intparam"] = VerifH_serveHTTP_intparam
 	vfHarnesses["VerifH_serveHTTP_path"] = VerifH_serveHTTP_path
 }
@@ -54,43 +53,6 @@ func VerifH_serveHTTP_intparam() {
 	} else {
 		vfCover("body-rival")
 	}
-}
-
-type vfNopCloser struct{ io.Reader }
-
-func (vfNopCloser) Close() error { return nil }
-
-// vfMuxWith builds a real Mux (NewMux + registerService) exposing the unary method vf.S.M0 with
-// the given annotation, a recording codec for application/x and the fake application server.
-func vfMuxWith(rule *annotations.HttpRule, in, out *fakeMD, opts ...MuxOption) (*Mux, *vfServer, *fakeCodec) {
-	md := &fakeMethod{full: "vf.S.M0", in: in, out: out, opts: &fakeOpts{rule: rule}}
-	svc := &fakeSvc{full: "vf.S", methods: &fakeMethodList{list: []*fakeMethod{md}}}
-	rec := &fakeCodec{name: "fake"}
-	all := append([]MuxOption{FilesOption(vfRegistry(svc)), CodecOption("application/x", rec)}, opts...)
-	mux, err := NewMux(all...)
-	if err != nil {
-		vfFail("NewMux failed")
-	}
-	srv := &vfServer{in: in, out: out, reply: newFakeMsg(out)}
-	srv.reply.payload = []byte("REPLY")
-	sd := &grpc.ServiceDesc{ServiceName: "vf.S", Methods: []grpc.MethodDesc{{MethodName: "M0", Handler: vfUnaryHandler}}}
-	if err := mux.registerService(sd, srv); err != nil {
-		vfFail("registerService failed: " + err.Error())
-	}
-	return mux, srv, rec
-}
-
-func vfIsPlainQueryByte(c byte) bool {
-	return c < 0x80 && isPath(rune(c)) && c != '&' && c != ';' && c != '=' && c != '+' && c != '*' && c != '!' && c != '$' && c != '\'' && c != '(' && c != ')' && c != ',' && c != '@' && c != '~'
-}
-
-func vfPlainString(max int) string {
-	n := 1 + vfLen(max-1)
-	s := vfString(n)
-	for i := 0; i < n; i++ {
-		vfAssume(vfIsPlainQueryByte(s[i]))
-	}
-	return s
 }
 
 // VerifH_serveHTTP_params (C07, C03): through the real ServeHTTP -> serveHTTP -> RecvMsg -> set: a
@@ -256,5 +218,90 @@ func VerifH_serveHTTP_path() {
 		vfCheck(!strict && !implicit, "request whose normalised path is covered by a rule was not dispatched")
 		vfCheck(w.status == 404 || w.status == 400 || w.status == 405, "unrouted request not answered 404/400/405")
 		vfCover("not-dispatched")
+	}
+}
+
+// VerifH_serveHTTP_typed (C07, C01, C03): path variables bound to an int32, a bool and a field whose
+// JSON name differs from its proto name, with a rival query parameter naming the same field (by
+// either name) and - for the bool and int - captures that are the ZERO value of the field: the
+// handler sees the value captured from the path, converted to the field's type; a capture that
+// is not valid text for the type is rejected.
+func VerifH_serveHTTP_typed() {
+	in := schemaTyped()
+	out := newFakeMD("vf.Resp", strField("r"))
+	shape := vfChoice(3)
+	var rule *annotations.HttpRule
+	var prefix, capture, rivalKey, rivalVal string
+	switch shape {
+	case 0:
+		rule, prefix = vfHTTPRule("GET", "/n/{i}"), "/n/"
+		capture = vfAsciiString(1 + vfLen(1))
+		for j := 0; j < len(capture); j++ {
+			vfAssume(vfIsPlainQueryByte(capture[j]) && capture[j] != '/')
+		}
+		rivalKey, rivalVal = "i", "7"
+	case 1:
+		rule, prefix = vfHTTPRule("GET", "/b/{bo}"), "/b/"
+		capture = []string{"false", "true", "0", "False"}[vfChoice(4)]
+		rivalKey, rivalVal = "bo", "true"
+		if vfBool() {
+			rivalVal = "false"
+		}
+	default:
+		rule, prefix = vfHTTPRule("GET", "/l/{long_name}"), "/l/"
+		capture = vfPlainString(2)
+		rivalKey, rivalVal = "long_name", "rival"
+		if vfBool() {
+			rivalKey = "longName"
+			vfCover("rival-by-json-name")
+		}
+	}
+	mux, srv, _ := vfMuxWith(rule, in, out)
+	query := ""
+	withRival := vfBool()
+	if withRival {
+		query = rivalKey + "=" + rivalVal
+	}
+	r := &http.Request{
+		Method: "GET", URL: &url.URL{Path: prefix + capture, RawQuery: query},
+		Header: http.Header{"Accept": []string{"application/x"}}, Body: vfNopCloser{&vfWholeReader{}}, ProtoMajor: 1, ProtoMinor: 1,
+	}
+	w := newFakeRW()
+	mux.ServeHTTP(w, r)
+	vfCheck(w.committed, "no response was produced")
+	switch shape {
+	case 0:
+		want, ok := refJSONInt(capture)
+		if !ok {
+			vfCheck(srv.calls == 0 && w.status != 200, "a capture that is not an integer was accepted for an int32 path variable")
+			vfCover("int-rejected")
+			return
+		}
+		vfCheck(srv.calls == 1 && w.status == 200, "a well-formed request matching the rule was not delivered")
+		vfCheck(int(srv.got[0].vals["i"].Int()) == want, "int32 path-bound field does not carry the value captured from the URL path")
+		if want == 0 && withRival {
+			vfCover("zero-capture-with-rival")
+		}
+		vfCover("int")
+	case 1:
+		if capture != "false" && capture != "true" {
+			vfCheck(srv.calls == 0 && w.status != 200, "a capture that is neither true nor false was accepted for a bool path variable")
+			vfCover("bool-rejected")
+			return
+		}
+		vfCheck(srv.calls == 1 && w.status == 200, "a well-formed request matching the rule was not delivered")
+		v, set := srv.got[0].vals["bo"]
+		vfCheck((set && v.Bool()) == (capture == "true"), "bool path-bound field does not carry the value captured from the URL path")
+		if capture == "false" && withRival {
+			vfCover("zero-capture-with-rival")
+		}
+		vfCover("bool")
+	default:
+		vfCheck(srv.calls == 1 && w.status == 200, "a well-formed request matching the rule was not delivered")
+		vfCheck(srv.got[0].str("long_name") == capture, "path-bound field does not carry the value captured from the URL path")
+		vfCover("json-name-field")
+	}
+	if withRival {
+		vfCover("query-rival")
 	}
 }
